@@ -285,6 +285,11 @@ impl Run {
 	pub fn is_known(&self, id: &str) -> bool {
 		self.known.iter().any(|k| k.id == id && k.property == self.prop && k.status == "known")
 	}
+	/// is this id listed with status "known" under any property? (a finding recorded for one property may have to be
+	/// excluded by construction from another property's generator)
+	pub fn known_listed(&self, id: &str) -> bool {
+		self.known.iter().any(|k| k.id == id && k.status == "known")
+	}
 	pub fn known_what(&self, id: &str) -> String {
 		self.known.iter().find(|k| k.id == id).map(|k| k.what.clone()).unwrap_or_default()
 	}
